@@ -14,7 +14,7 @@ import multiprocessing as mp
 CASE_TIMEOUT = int(os.environ.get('VT_CASE_TIMEOUT', '120'))
 
 
-class CaseTimeout(Exception):
+class CaseTimeout(BaseException):
     pass
 
 
